@@ -14,8 +14,9 @@ def build_spec():
     for mod in MODULES:
         m = importlib.import_module("contracts." + mod)
         m.declare(spec)
-    from . import c_exit_arrival
+    from . import c_exit_arrival, c_simulation
     c_exit_arrival.declare_arrivals(spec)
+    c_simulation.declare_loops(spec)
     return spec
 
 
